@@ -50,11 +50,16 @@ def _small_blob():
 
 @st.composite
 def batch_cases(draw):
-    n = draw(st.sampled_from([1, 1, 2, 2, 3, 5, 8]))
+    n = draw(st.sampled_from([1, 1, 2, 2, 3, 4, 5, 8]))
     first = draw(st.one_of(st.sampled_from([0, 1, 2**31, 2**62, 2**63 - 1 - 2**31, -(2**63) + 2**31]),
                            st.integers(-(2**63) + 2**31, 2**63 - 1 - 2**31)))
     deltas = [0] + [draw(st.one_of(st.sampled_from([0, 1, -1, 63, 64, -64, -65, 2**31 - 1, -(2**31), 8191, 8192]),
                                    st.integers(-(2**31), 2**31 - 1))) for _ in range(n - 1)]
+    if n >= 3 and draw(st.integers(0, 7)) == 0:
+        # "almost contiguous": the end points span exactly n - 1 (what a producer's batch looks like to a range check),
+        # the inner offsets are a shuffle of the values in between
+        inner = draw(st.permutations(list(range(1, n - 1))))
+        deltas = [0] + list(inner) + [n - 1]
     # last - first must itself be an int32 (it is: deltas are int32)
     ts = [draw(st.one_of(st.sampled_from([0, 1, 999, 1000, 1503229838908, 1503229959532, 2**41 + 7, TS_MAX_MS, TS_MAX_MS - 1]),
                          st.integers(0, TS_MAX_MS))) for _ in range(n)]
